@@ -26,7 +26,7 @@ for pid in ids:
 na = [dict(property_id=pid, reason=NOT_APPLICABLE.get(pid, "check not built yet in this round (technique applies; see DESIGN.md)")) for pid in ids if pid not in {c["property_id"] for c in checks}]
 man = dict(
     version=1,
-    setup_cmd="cd /verif && ./check --list > /dev/null && cd /verif/harness && CARGO_NET_OFFLINE=true cargo kani --harness c00::c00_smoke --exact > /dev/null 2>&1; true",
+    setup_cmd="cd /verif && ./check --list > /dev/null && cargo kani --version > /dev/null",
     hooks=dict(
         guard="cfg(any(kani, dsi_bitstream_verif))",
         enable="cargo kani sets cfg(kani) for every crate it compiles; native replays build with RUSTFLAGS='--cfg dsi_bitstream_verif'",
